@@ -163,8 +163,8 @@ def run_suite(name, tier, seed):
 
 
 def check(prop, tier, seed):
-    out = [run_suite(s, tier, seed) for s in PROP_SUITES[prop]]
+    thunks = [(lambda s=s: run_suite(s, tier, seed)) for s in PROP_SUITES[prop]]
     if prop == "C08":
         from . import cs          # values added to a change set
-        out += cs.check("C08", tier, seed)
-    return out
+        thunks.append(lambda: cs.check("C08", tier, seed))
+    return C.run_until_violation(prop, thunks)
